@@ -458,6 +458,17 @@ def parse_text(text, crate):
         m = _FN.match(l)
         mc = None if m else _CONST.match(l)
         ctfe_dup = bool(m) and i > 0 and lines[i - 1].startswith('// MIR FOR CTFE')
+        if not m and l.startswith('const ') and l.endswith(';') and ' = const ' in l:
+            body_hdr = l[len('const '):-1]
+            kk = find_top(body_hdr, ': ')
+            ee = body_hdr.index(' = const ', kk)
+            f = Fn(body_hdr[:kk], [], body_hdr[kk + 2:ee], crate)
+            f.is_const = True
+            f.locals['_0'] = f.ret
+            f.blocks['bb0'] = (['_0 = ' + body_hdr[ee + 3:] + ';'], 'return;')
+            fns.append(f)
+            i += 1
+            continue
         if m or mc:
             # headers may wrap over several lines; join until the line that ends with ' {'
             hdr = l
@@ -474,8 +485,9 @@ def parse_text(text, crate):
                     name, args, ret = _parse_header(hdr[3:])
                     f = Fn(name, args, ret, crate)
                 else:
-                    mc = _CONST.match(hdr)
-                    f = Fn(mc.group(1), [], mc.group(2), crate)
+                    body_hdr = re.sub(r'^(?:const|static mut|static) ', '', hdr)[:-len(' = {')]
+                    kk = find_top(body_hdr, ': ')
+                    f = Fn(body_hdr[:kk], [], body_hdr[kk + 2:], crate)
                     f.is_const = True
                 _parse_body(f, body)
                 im = _IMPL_AT.search(f.name)
